@@ -538,7 +538,10 @@ def main():
         entry = {"ok": True, "errors": [], "defs": [], "sources": srcs}
         try:
             defs, extra_header = gfun(args.repo)
-            text = HEADER % ", ".join(srcs) + extra_header + "\n".join(t for _, t in defs)
+            if gname == "Tables":
+                text = "(* GENERATED by tools/py2coq.py (tools/tables.py) from nflows/**/*.py -- do not edit. *)\n" + defs[0][1]
+            else:
+                text = HEADER % ", ".join(srcs) + extra_header + "\n".join(t for _, t in defs)
             entry["defs"] = [n for n, _ in defs]
         except Exception as ex:  # Untranslatable (either module copy) or any surprise in a group function: fail closed
             if isinstance(ex, (SyntaxError, OSError)):
